@@ -165,6 +165,9 @@ func (jr *jpegReader) nextMarker() bool {
 			jr.marker = markerType(jr.buf[1])
 			return true
 		}
+		// No SOI marker seen yet. Skip this 0xFF byte and continue searching,
+		// otherwise the same bytes would be examined forever.
+		jr.err = jr.discard(1)
 	}
 	return false
 }
